@@ -202,14 +202,20 @@ func c04Worker(w *W) {
 			enabled bool
 		}
 		subs := make([][]sub, c.Producers)
+		nEmpty := make([]int, c.Producers)
 		var wg sync.WaitGroup
 		for p := 0; p < c.Producers; p++ {
 			pr := newRng(w.Spec.Seed, uint64(w.Spec.Shard)*7919+uint64(ci)*131+uint64(p))
 			// decide the items up front (deterministic per seed)
-			kinds := make([]int, c.PerProd) // 0 enabled event, 1 disabled event, 2 raw write
+			kinds := make([]int, c.PerProd) // 0 enabled event, 1 disabled event, 2 raw write, 3 raw write of length 0
 			for i := range kinds {
 				x := pr.IntN(100)
 				switch {
+				case x < c.RawPct && pr.IntN(12) == 0:
+					// a zero-length raw write is an item like any other (delivered once as an empty Write, or counted); it
+					// cannot carry an id, so it is accounted for by number
+					kinds[i] = 3
+					nEmpty[p]++
 				case x < c.RawPct:
 					kinds[i] = 2
 				case x < c.RawPct+c.DisPct:
@@ -240,6 +246,12 @@ func c04Worker(w *W) {
 					case 2:
 						l.Write([]byte("raw " + id + "\n"))
 						subs[p] = append(subs[p], sub{id, true})
+					case 3:
+						if i%2 == 0 {
+							l.Write(nil)
+						} else {
+							l.Write([]byte{})
+						}
 					}
 				}
 			}(p)
@@ -316,6 +328,10 @@ func c04Worker(w *W) {
 		nDelivered := 0
 		ghost := ""
 		orderSig := crc32.NewIEEE()
+		emptyDelivered, emptySubmitted := 0, 0
+		for _, k := range nEmpty {
+			emptySubmitted += k
+		}
 		for _, it := range rec.take() {
 			if it.Sink != sinkName {
 				continue
@@ -323,6 +339,11 @@ func c04Worker(w *W) {
 			id := idOf(it.JSON)
 			if i := strings.IndexByte(id, 'c'); i > 0 {
 				orderSig.Write([]byte(id[:i])) // producer part only: the interleaving of producers as seen by the appender
+			}
+			if it.Kind == "write" && len(it.JSON) == 0 {
+				emptyDelivered++
+				nDelivered++
+				continue
 			}
 			if id == "" {
 				ghost = trunc(string(it.JSON), 200)
@@ -333,8 +354,14 @@ func c04Worker(w *W) {
 				w.Violate("C04:event-recycled", "an event changed identity while the appender was using it", c)
 			}
 		}
-		submittedEnabled := 0
+		submittedEnabled := emptySubmitted
 		bad := false
+		if emptyDelivered > emptySubmitted || (c.Policy == "Block" && emptyDelivered != emptySubmitted) {
+			bad = true
+			w.Violate("C04:empty-raw-writes:"+c.Policy, fmt.Sprintf("[%s] %d zero-length raw writes were submitted, %d empty writes reached the appender", c.class(), emptySubmitted, emptyDelivered), c)
+		}
+		w.Count("zero_length_raw_writes_submitted", int64(emptySubmitted))
+		w.Count("zero_length_raw_writes_delivered", int64(emptyDelivered))
 		for p := range subs {
 			for _, s := range subs[p] {
 				d := delivered[s.id]
